@@ -35,6 +35,15 @@ THEOREMS = [
     "HgVerif.Dispatch.tsb_pattern_requires_same_fields",
     "HgVerif.Dispatch.inst_subst_deref",
     "HgVerif.Dispatch.inst_subst_exact",
+    "HgVerif.Dispatch.inst_subst_exact_nameless",
+    "HgVerif.Dispatch.var_bound_to_position_type",
+    "HgVerif.Dispatch.repeated_var_same_type",
+    "HgVerif.Dispatch.winner_var_one_type",
+    "HgVerif.Dispatch.structural_rebinding_unsound",
+    "HgVerif.Dispatch.schema_var_rebinding_is_structural",
+    "HgVerif.Dispatch.match_complete_fails_for_inst",
+    "HgVerif.Dispatch.inst_eq_instX_of_noSchemaVar",
+    "HgVerif.Dispatch.instX_implies_inst",
     "HgVerif.Dispatch.output_is_substitution",
     "HgVerif.Dispatch.addVar_min",
     "HgVerif.Dispatch.rank_repeated_var_most_specific",
@@ -60,15 +69,25 @@ RULE = ("synthetic overload families (1-6 overloads, arity 1-3) obtained by gene
         "variables, mixed) at top level or under TSL / TSD / TSB / REF / TSL-of-TSB / TSD-of-TSL, alone, with the exact "
         "(k+1)-field pattern, with a ~X fallback (bare or nested), or with both, called with the bundle of exactly those "
         "fields and with bundles carrying one or two MORE fields behind them, fewer fields, the same fields in another order, "
-        "a re-named field, a leading extra field, a re-typed field (6 tuples, REF-wrapped at random); on a monitor-only third "
-        "stream 80 (thorough: 1500) such families over NAMED bundles / named patterns (same name, another name for the same "
-        "fields, no name, and the pattern's own name registered for the wider field list); <= 5 argument tuples per family "
-        "elsewhere (the seed tuple and REF-wrapped / mutated "
+        "a re-named field, a leading extra field, a re-typed field (6 tuples, REF-wrapped at random); on a third stream "
+        "(model + monitor: bundles are nominal in the model, a bundle type = optional name + field list) 80 (thorough: 1500) "
+        "such families over NAMED bundles / named patterns (same name, another name for the same "
+        "fields, no name, and the pattern's own name registered for the wider field list), and 200 (thorough: 4600) families "
+        "with a whole-time-series variable REPEATED at 2-3 positions - f(~T,~T), f(TSD[~K,~V],~V), f(TSL[~T,~N],TSL[~T,~N]), "
+        "TSL+bare, REF+bare, REF+REF, bundle-field+bare, TSD-of-TSL+TSL, TSD+TSD, f(~T,~T,~T), both positions inside one "
+        "parameter TSB[l:~T,r:~T]; either parameter order; plain, with constraints on all / one occurrence, and (30 / 600 "
+        "directed cases, finding C19-schemavar) as a TSB[~S] schema variable or ~S used both ways - together with the "
+        "fallback f(~X,~Y) (bare or of the same shape) or WITHOUT fallback, sometimes a decoy (concrete leaf, named or "
+        "un-named field-listing pattern), called with (A,A), (A,B), (B,A) [B: same fields, other name], (A,U), (U,A) [U: same "
+        "fields, no name], (A,A'), (A',A) [A': another field type / name / count / order] and two more pairs, 20% with the "
+        "difference one level down inside an un-named outer bundle, REF-wrapped at random, under ALL registration orders; "
+        "<= 5 argument tuples per family elsewhere (the seed tuple and REF-wrapped / mutated "
         "variants); each family registered under 3-6 registration orders. A case is non-trivial when some call has "
         ">= 2 matching candidates (a critical pair: the rank decides) ; distinct by sha1 of the case text")
 TRUSTED = [
     "std::unordered_map / std::stable_sort / TypeRegistry interning modelled as association lists, a stable insertion "
-    "sort and structural equality of schema terms",
+    "sort and equality of schema terms (a bundle term carries its optional name: pointer identity of interned schemas = "
+    "equality of terms incl. the name; time_series_schema_equivalent = the name-blind comparison `equiv`)",
     "tools/props/c19.py re-implements pattern matching in Python for the monitor (a third, independent reading of "
     "type_pattern.cpp)",
     "tools/props/c19.py doc_rank: the documented rank formula (docs/source/developer_guide/operators.rst l.327-395 and "
@@ -81,10 +100,10 @@ ASSUMPTIONS = [
     "outside the model (not generated, not covered by the theorems): requires_ predicates and default resolvers, "
     "parameter defaults, variadic tails, keyword arguments and **kwargs packing (a declared collector only contributes "
     "its rank penalty; no call supplies a keyword), scalar->const promotion of a plain value into a time-series "
-    "parameter (both drivers answer 'unsupported'), named bundles (not in the Lean model: the stream 'named-bundles' is "
-    "decided by the monitor on the implementation trace alone - a named field-listing pattern accepts only the named "
-    "bundle of its name with exactly its fields, an un-named pattern ignores the name; named bundles never occur in "
-    "concrete-leaf patterns, schema variables or output patterns there) and bundle inheritance (input_adaptation_rank is 0), "
+    "parameter (both drivers answer 'unsupported'), the registry's bundle NAME SPACE (one name, one field list: "
+    "TypeRegistry::tsb throws on a conflicting re-declaration - the generator derives every bundle name from its field "
+    "list, named bundles never occur in OUTPUT patterns, and no named bundle has a REF field, so neither the conflict nor "
+    "the '<name>_deref' renaming of TypeRegistry::dereference is reachable) and bundle inheritance (input_adaptation_rank is 0), "
     "scalar container patterns (tuple/set/map/series/frame/array/bundle), duration windows, the OUTPUT-direction "
     "matcher (expected_output), size hints, initial resolutions, Python-sourced candidates",
     "scalars are the atoms bool/int/float/str; the three numeric atoms coerce into one another "
@@ -99,8 +118,14 @@ TECHNIQUE = ("Lean 4 proof (resolveCall characterised as 'unique strict minimum 
 LEVEL_TEXT = ("Kernel-checked theorems over ALL overload lists, argument tuples and registration orders of the modelled "
               "pattern language: permutation invariance of resolve, winner = unique strict rank minimum / no survivor = "
               "no-match / shared minimum = ambiguous, soundness of matching (one binding map satisfies every parameter "
-              "position, substitution agrees with the supplied type up to REF transparency), output = substitution of "
-              "the winner's bindings, and the ground-instance half of 'more specific ranks lower'. The unrestricted "
+              "position; a whole-time-series variable is bound to EXACTLY the type at each of its positions, so a repeated "
+              "variable forces the same type - for bundles the same name and the same fields - at all its positions, and an "
+              "output ~T is that type: repeated_var_same_type / winner_var_one_type; substitution agrees with the supplied "
+              "type up to REF transparency and bundle names of un-named / concrete-leaf patterns), output = substitution of "
+              "the winner's bindings, and the ground-instance half of 'more specific ranks lower'. A variant matcher with "
+              "a structural comparison on re-binding is shown NOT to have the one-type property (kernel-checked witness "
+              "f(~T,~T) on (TSB<A>[x,y], TSB<B>[x,y])); for the code's TSB[~S] schema variable only 'same field list' holds "
+              "(schema_var_rebinding_is_structural, reported as [C19-schemavar] once listed). The unrestricted "
               "rank-respects-instantiation statement is REFUTED for the code's rank (kept visible)."
               ' Every implementation answer is additionally checked against the documented specificity order (docrank oracle) and bundle families (named / un-named TSB patterns with extra, missing and reordered fields) and output patterns whose size variable no parameter binds (the candidate must be rejected) are part of the generator.')
 LEVEL_NOTE = ("Trusted: Lean kernel; axioms propext/Classical.choice/Quot.sound; the hand-written model of "
@@ -341,8 +366,33 @@ def deref(c):
     return c
 
 
+def sequiv(a, b):
+    """time_series_schema_equivalent: the STRUCTURAL comparison (kind, scalars, sizes, field names, field types,
+    recursively) - a bundle's NAME is not compared, so TSB<A>[x,y], TSB<B>[x,y] and TSB[x,y] are 'equivalent'"""
+    if a[0] != b[0]:
+        return False
+    k = a[0]
+    if k == "TSB":
+        return len(a[1]) == len(b[1]) and all(f == g and sequiv(t, u) for (f, t), (g, u) in zip(a[1], b[1]))
+    if k == "TSL": return a[2] == b[2] and sequiv(a[1], b[1])
+    if k == "TSD": return a[1] == b[1] and sequiv(a[2], b[2])
+    if k == "REF": return sequiv(a[1], b[1])
+    return a == b
+
+
 def _bind(b, key, val, allowed):
     if allowed and val not in allowed:
+        return False
+    if key in b:
+        return b[key] == val
+    b[key] = val
+    return True
+
+
+def _bind_ts(b, key, val, allowed):
+    """a whole-time-series variable: the constraints admit what is EQUIVALENT to one of them (ts_allowed_by_constraints),
+    but a variable that is already bound is bound to ONE type - identity of the schema, for a bundle name AND fields"""
+    if allowed and not any(sequiv(k, val) for k in allowed):
         return False
     if key in b:
         return b[key] == val
@@ -356,18 +406,20 @@ def smatch(p, s, b):
     return _bind(b, ("sc", p[1]), s, p[2])
 
 
-def pmatch(p, c, b):
-    """does the input pattern p accept a port of schema c, extending bindings b (dict, mutated)"""
+def pmatch(p, c, b, strict=False):
+    """does the input pattern p accept a port of schema c, extending bindings b (dict, mutated).  strict: a re-used TSB[~S]
+    schema variable must hold ONE type (identity) - the reading of the property; default: the unchanged code's reading"""
     k = p[0]
     if k == "SIGNAL":
         return True
     if k == "REF":
-        return pmatch(p[1], c[1] if c[0] == "REF" else c, b)
+        return pmatch(p[1], c[1] if c[0] == "REF" else c, b, strict)
     c = strip_refs(c)
     if k == "var":
-        return _bind(b, ("ts", p[1]), c, p[2])
+        return _bind_ts(b, ("ts", p[1]), c, p[2])
     if k == "conc":
-        return p[1] == ("SIGNAL",) or deref(p[1]) == deref(c)
+        # a concrete leaf accepts what wiring accepts (input_accepts_output_schema): equivalent after dereferencing
+        return p[1] == ("SIGNAL",) or sequiv(deref(p[1]), deref(c))
     if k in ("TS", "TSS"):
         return c[0] == k and smatch(p[1], c[1], b)
     if k == "TSL":
@@ -379,13 +431,20 @@ def pmatch(p, c, b):
                 return False
         elif not _bind(b, ("sz", z[1]), c[2], z[2]):
             return False
-        return pmatch(p[1], c[1], b)
+        return pmatch(p[1], c[1], b, strict)
     if k == "TSD":
-        return c[0] == "TSD" and smatch(p[1], c[1], b) and pmatch(p[2], c[2], b)
+        return c[0] == "TSD" and smatch(p[1], c[1], b) and pmatch(p[2], c[2], b, strict)
     if k == "TSW":
         return c[0] == "TSW" and smatch(p[1], c[1], b) and (p[2] is None or p[2] == (c[2], c[3]))
     if k == "TSBvar":
-        return c[0] == "TSB" and _bind(b, ("ts", p[1]), c, ())
+        # a re-used SCHEMA variable is compared structurally by the unchanged code (type_pattern.cpp l.283-287); the
+        # strict reading (one type) is evaluated separately and reported as [C19-schemavar]
+        if c[0] != "TSB":
+            return False
+        if ("ts", p[1]) in b:
+            return b[("ts", p[1])] == c if strict else sequiv(b[("ts", p[1])], c)
+        b[("ts", p[1])] = c
+        return True
     if k == "TSB":
         # a field-listing bundle pattern: exactly the pattern's fields - same count, same names, same order - each
         # matching its child pattern; a NAMED pattern moreover only accepts the named bundle of that name (an un-named
@@ -395,7 +454,7 @@ def pmatch(p, c, b):
         if len(p) == 3 and c[2:] != p[2:]:
             return False
         for (f, q), (g, d) in zip(p[1], c[1]):
-            if f != g or not pmatch(q, d, b):
+            if f != g or not pmatch(q, d, b, strict):
                 return False
         return True
     raise Bad(str(p))
@@ -448,7 +507,7 @@ def pvars(p, acc):
     return acc
 
 
-def candidate_matches(ov, args):
+def candidate_matches(ov, args, strict=False):
     """(matches?, bindings) of one overload against a positional argument tuple"""
     params, out, _kw = ov
     if len(params) != len(args):
@@ -456,7 +515,7 @@ def candidate_matches(ov, args):
     b = {}
     for (pk, pat), (ak, a) in zip(params, args):
         if pk == "ts":
-            if ak != "ts" or not pmatch(pat, a, b):
+            if ak != "ts" or not pmatch(pat, a, b, strict):
                 return False, b
         else:
             if ak != "sc":
@@ -1237,7 +1296,7 @@ def gen_depth_case(rng, idx):
 
 
 # ---- field-listing bundle patterns against bundles with more / fewer / re-ordered / re-named fields ------------------
-BUNDLE_STREAM = "named-bundles"       # monitor-only (the Lean model has no named bundles)
+BUNDLE_STREAM = "named-bundles"       # named bundles; since the model carries bundle names: model + monitor
 _BFIELDS = ["a", "b", "c", "d"]
 _BLEAVES = [("TS", "int"), ("TS", "int"), ("TS", "str"), ("TS", "float"), ("TSS", "int"), ("TSL", ("TS", "int"), 2),
             ("TSD", "str", ("TS", "int"))]
@@ -1394,6 +1453,221 @@ def gen_bundle_case(rng, idx, named=False):
     return Case(lines)
 
 
+# ---- a REPEATED whole-time-series variable over bundle types that share their field list ---------------------------------
+# a bundle type is nominal: TSB<A>[x,y], TSB<B>[x,y] and the un-named TSB[x,y] are three different types with the same
+# field list.  A variable that occurs at >= 2 positions must hold ONE of them at all its positions.
+_RLEAVES = [("TS", "int"), ("TS", "float"), ("TS", "str"), ("TSS", "int"), ("TSL", ("TS", "int"), 2),
+            ("TSD", "str", ("TS", "int")), ("TS", "bool")]
+_RFIELDS = ["x", "y", "z", "w"]
+_ID = lambda c: c
+# where the positions of the repeated variable sit: tag -> [(pattern builder(var), argument builder(schema)), ...]
+_REPEAT_SHAPES = {
+    "direct": [(lambda v: v, _ID), (lambda v: v, _ID)],
+    "tsd+bare": [(lambda v: ("TSD", ("svar", "K", ()), v), lambda c: ("TSD", "int", c)), (lambda v: v, _ID)],
+    "tsl+tsl": [(lambda v: ("TSL", v, ("szvar", "N", ())), lambda c: ("TSL", c, 2)),
+                (lambda v: ("TSL", v, ("szvar", "N", ())), lambda c: ("TSL", c, 2))],
+    "tsl+bare": [(lambda v: ("TSL", v, ("fixed", 0)), lambda c: ("TSL", c, 3)), (lambda v: v, _ID)],
+    "ref+bare": [(lambda v: ("REF", v), lambda c: mk_ref(c)), (lambda v: v, _ID)],
+    "ref+ref": [(lambda v: ("REF", v), lambda c: mk_ref(c)), (lambda v: ("REF", v), _ID)],
+    "field+bare": [(lambda v: ("TSB", (("p", v), ("q", ("TS", ("sconc", "int"))))), lambda c: ("TSB", (("p", c), ("q", ("TS", "int"))))),
+                   (lambda v: v, _ID)],
+    "tsd-tsl+tsl": [(lambda v: ("TSD", ("sconc", "str"), ("TSL", v, ("fixed", 0))), lambda c: ("TSD", "str", ("TSL", c, 2))),
+                    (lambda v: ("TSL", v, ("szvar", "N", ())), lambda c: ("TSL", c, 2))],
+    "tsd+tsd": [(lambda v: ("TSD", ("svar", "K", ()), v), lambda c: ("TSD", "int", c)),
+                (lambda v: ("TSD", ("svar", "K", ()), v), lambda c: ("TSD", "int", c))],
+    "triple": [(lambda v: v, _ID), (lambda v: v, _ID), (lambda v: v, _ID)],
+    "one-param": [(lambda v: ("TSB", (("l", v), ("r", v))), None)],      # both positions inside ONE parameter
+}
+
+
+def _alt_fields(rng, fields):
+    """a DIFFERENT field list (another field type / name / count): never equivalent to `fields`"""
+    k = len(fields)
+    how = rng.choice(["retyped", "retyped", "renamed", "wider"] + (["narrower", "reordered"] if k > 1 else []))
+    if how == "retyped":
+        i = rng.randrange(k)
+        other = rng.choice([t for t in _RLEAVES if t != fields[i][1]])
+        return how, [(f, other if j == i else t) for j, (f, t) in enumerate(fields)]
+    if how == "renamed":
+        return how, list(fields[:-1]) + [("v", fields[-1][1])]
+    if how == "wider":
+        return how, list(fields) + [("u", rng.choice(_RLEAVES))]
+    if how == "narrower":
+        return how, list(fields[:-1])
+    perm = list(fields)
+    while perm == list(fields):
+        rng.shuffle(perm)
+    if [f for f, _ in perm] == [f for f, _ in fields]:      # equal field types: re-ordering the names is what differs
+        perm = list(reversed(fields))
+    return how, perm
+
+
+def gen_repeat_case(rng, idx, mode=None):
+    """a candidate with a whole-time-series variable REPEATED at >= 2 positions (two parameters, a parameter and a nested
+    position, both nested, with constraints, inside one parameter), together with the fallback f(~X,~Y) (bare or of the
+    same shape) or WITHOUT a fallback, sometimes a decoy; called with (A,A), (A,B) [same fields, other name], (A,U) [same
+    fields, no name], (A,A') [other fields], in both argument orders, at top level and under TSL / TSD / REF / a bundle
+    field; every registration order.  mode 'schema' / 'mixed' use a TSB[~S] schema variable (finding C19-schemavar)."""
+    lines = ["case %d" % idx]
+    if mode is None:
+        mode = rng.choice(["var"] * 6 + ["constrained", "constrained"])
+    k = rng.choice([1, 2, 2, 3])
+    fields = [(_RFIELDS[i], rng.choice(_RLEAVES)) for i in range(k)]
+    how, alt = _alt_fields(rng, fields)
+    inner = rng.random() < 0.2
+    if inner:
+        # the bundles that differ in name only sit one level down, as a field of an (un-named) outer bundle
+        def outer(b):
+            return ("TSB", (("m", b), ("n", ("TS", "int"))))
+    else:
+        def outer(b):
+            return b
+    A = outer(("TSB", tuple(fields), bundle_name(fields, "x")))
+    B = outer(("TSB", tuple(fields), bundle_name(fields, "y")))
+    U = outer(("TSB", tuple(fields)))
+    A2 = outer(("TSB", tuple(alt), bundle_name(alt, "x")))
+    tag = rng.choice(["direct", "direct", "direct", "tsd+bare", "tsd+bare", "tsl+tsl", "tsl+tsl", "tsl+bare", "ref+bare",
+                      "ref+ref", "field+bare", "tsd-tsl+tsl", "tsd+tsd", "triple", "one-param"])
+    shape = list(_REPEAT_SHAPES[tag])
+    if tag != "one-param" and rng.random() < 0.5:
+        shape.reverse()                                  # f(~V, TSD[~K,~V]) as well as f(TSD[~K,~V], ~V)
+    npos = 2 if tag == "one-param" else len(shape)
+    # the repeated variable at each of its positions
+    if mode == "var":
+        vs = [("var", "T", ())] * npos
+    elif mode == "constrained":
+        pool = [A, B, U, A2, ("TS", "int")]
+        cs = tuple(rng.sample(pool, rng.choice([1, 2, 2])))
+        if rng.random() < 0.5:
+            vs = [("var", "T", cs)] * npos
+        else:                                            # the constraint on one occurrence only
+            vs = [("var", "T", cs)] + [("var", "T", ())] * (npos - 1)
+            rng.shuffle(vs)
+    elif mode == "schema":
+        vs = [("TSBvar", "S")] * npos
+    else:                                                # 'mixed': ~S as a whole-time-series AND as a schema variable
+        vs = [("var", "S", ()), ("TSBvar", "S")] + [("var", "S", ())] * (npos - 2)
+        rng.shuffle(vs)
+    if tag == "one-param":
+        rep_params = [("ts", ("TSB", (("l", vs[0]), ("r", vs[1]))))]
+    else:
+        rep_params = [("ts", mk(v)) for (mk, _), v in zip(shape, vs)]
+    v0 = vs[0] if vs[0][0] == "TSBvar" else ("var", vs[0][1], ())
+    outs = [v0, ("TSL", v0, ("fixed", 2)), ("REF", v0), ("TSD", ("sconc", "int"), v0), ("TSB", (("o", v0),))]
+    ovs = [(rep_params, rng.choice(outs + [v0, v0]), None)]
+    fb = rng.choice(["bare", "bare", "shape", "none", "none"])
+    if fb == "bare":
+        ps = [("ts", ("var", "X%d" % i, ())) for i in range(len(rep_params))]
+    elif fb == "shape" and tag != "one-param":
+        ps = [("ts", mk(("var", "X%d" % i, ()))) for i, (mk, _) in enumerate(shape)]
+    elif fb == "shape":
+        ps = [("ts", ("TSB", (("l", ("var", "X0", ())), ("r", ("var", "X1", ())))))]
+    else:
+        ps = None
+    if ps is not None:
+        ovs.append((ps, rng.choice([("var", "X0", ()), ("var", "X%d" % (0 if tag == "one-param" and fb == "bare" else 1), ()), None]), None))
+    if rng.random() < 0.35 and tag != "one-param":      # a decoy at the first position
+        mk0, _ = shape[0]
+        r = rng.random()
+        if r < 0.4:       # a concrete leaf: accepts what is EQUIVALENT to it (A, B and U alike)
+            d0 = ("conc", rng.choice([A, U]))
+        elif r < 0.8 and not inner:     # a named field-listing pattern: accepts the bundle of that name only
+            d0 = ("TSB", tuple((f, ("var", "P%d" % i, ())) for i, (f, _) in enumerate(fields)), A[2])
+        else:
+            d0 = ("TSB", tuple((f, ("var", "P%d" % i, ())) for i, (f, _) in enumerate(U[1])))
+        ps = [("ts", mk0(d0))] + [("ts", ("var", "Y%d" % i, ())) for i in range(1, len(shape))]
+        ovs.append((ps, gen_out(rng, ps), None))
+    rng.shuffle(ovs)
+    labels = ["A", "B", "C"][:len(ovs)]
+    for l, ov in zip(labels, ovs):
+        lines.append(show_ov(l, ov))
+    import itertools
+    for q in itertools.permutations(labels):             # ALL registration orders
+        lines.append("perm " + " ".join(q))
+    if npos == 2:
+        tuples = [(A, A), (A, B), (B, A), (A, U), (U, A), (A, A2), (A2, A)]
+        extra = [(U, U), (B, B), (B, U), (U, B), (A2, A2), (B, A2)]
+        rng.shuffle(extra)
+        tuples += extra[:2]
+    else:
+        tuples = [(A, A, A), (A, A, B), (A, B, A), (B, A, A), (A, U, A), (U, A, A), (A, A, A2), (U, U, U), (A, B, U)]
+    for t in tuples:
+        if tag == "one-param":
+            name = None if rng.random() < 0.7 else bundle_name([("l", t[0]), ("r", t[1])], "p")
+            b = ("TSB", (("l", t[0]), ("r", t[1])))
+            args = [("ts", b if name is None else b + (name,))]
+        else:
+            args = [("ts", mk_a(c)) for (_, mk_a), c in zip(shape, t)]
+        args = [(kk, mk_ref(a)) if rng.random() < 0.12 else (kk, a) for kk, a in args]
+        lines.append(show_call(args))
+    return Case(lines)
+
+
+def _var_sites(p, c, acc):
+    """the (REF-stripped) argument sub-schemas that the occurrences of every whole-time-series variable / schema variable of
+    pattern p are confronted with while p is read against schema c: acc[name] += [(kind, schema)], kind 'var' | 'schema'.
+    An independent walk (it binds nothing and compares nothing): REF transparency, TSL element, TSD value, bundle fields"""
+    k = p[0]
+    if k == "REF":
+        return _var_sites(p[1], c[1] if c[0] == "REF" else c, acc)
+    c = strip_refs(c)
+    if k == "var": acc.setdefault(p[1], []).append(("var", c))
+    elif k == "TSBvar":
+        if c[0] == "TSB": acc.setdefault(p[1], []).append(("schema", c))
+    elif k == "TSL" and c[0] == "TSL": _var_sites(p[1], c[1], acc)
+    elif k == "TSD" and c[0] == "TSD": _var_sites(p[2], c[2], acc)
+    elif k == "TSB" and c[0] == "TSB":
+        for (_, q), (_, d) in zip(p[1], c[1]):
+            _var_sites(q, d, acc)
+    return acc
+
+
+def var_sites(params, args):
+    acc = {}
+    if len(params) == len(args):
+        for (pk, pat), (ak, a) in zip(params, args):
+            if pk == "ts" and ak == "ts":
+                _var_sites(pat, a, acc)
+    return acc
+
+
+def _names_in(c):
+    k = c[0]
+    if k == "TSB": return (1 if len(c) == 3 else 0) + sum(_names_in(t) for _, t in c[1])
+    if k in ("TSL", "REF"): return _names_in(c[1])
+    if k == "TSD": return _names_in(c[2])
+    return 0
+
+
+def site_relation(types):
+    """how the types at the positions of one repeated variable relate"""
+    if all(t == types[0] for t in types):
+        return "one-type" + (":named-bundle" if _names_in(types[0]) else "")
+    if all(sequiv(t, types[0]) for t in types):
+        return "SAME-FIELDS-" + ("named-vs-un-named" if any(_names_in(t) == 0 for t in types) else "other-name")
+    return "different-fields"
+
+
+_SCHEMAVAR_LISTED = None
+
+
+def schemavar_listed():
+    """[C19-schemavar] is REPORTED (as a monitor failure, which tools/vlib.py then classifies as KNOWN-FINDING) only once
+    known_findings.json lists it; until then it is evaluated and counted (feature 'schema-var:bound-to-another-type')"""
+    global _SCHEMAVAR_LISTED
+    if _SCHEMAVAR_LISTED is None:
+        _SCHEMAVAR_LISTED = False
+        try:
+            import json
+            data = json.load(open(os.path.join(os.path.dirname(BUILD), "known_findings.json")))
+            for k in data.get("findings", []):
+                if k.get("property") == ID and k.get("status") == "known" and re.search(k["fingerprint"], "[C19-schemavar]"):
+                    _SCHEMAVAR_LISTED = True
+        except Exception:
+            pass
+    return _SCHEMAVAR_LISTED
+
+
 def _bundle_relation(p, c, feats, depth=0):
     """histogram: how the bundles of an argument relate to the field-listing bundle patterns they meet"""
     k = p[0]
@@ -1424,6 +1698,9 @@ def streams(rng, tier, seed):
     cases += [gen_depth_case(rng, 30000 + i) for i in range(150 if tier == "quick" else 3000)]
     cases += [gen_bundle_case(rng, 40000 + i) for i in range(150 if tier == "quick" else 3000)]
     named = [gen_bundle_case(rng, 50000 + i, named=True) for i in range(80 if tier == "quick" else 1500)]
+    named += [gen_repeat_case(rng, 60000 + i) for i in range(170 if tier == "quick" else 4000)]
+    # last: the directed cases of finding C19-schemavar (a re-used TSB[~S] schema variable is compared structurally)
+    named += [gen_repeat_case(rng, 70000 + i, mode=("schema" if i % 3 else "mixed")) for i in range(30 if tier == "quick" else 600)]
     if tier != "quick":
         cases += exhaustive_cases(n)
     cdir = os.path.join(os.path.dirname(BUILD), "corpus", "C19")
@@ -1442,8 +1719,9 @@ def streams(rng, tier, seed):
     # evaluated and counted (feature "specificity-inversion") but does not raise.
     return [Stream("dispatch", [impl], model_cmd("C19"), corpus + cases, timeout=1800),
             Stream(SPEC_STREAM, [impl], model_cmd("C19"), spec, timeout=600),
-            # named bundles are outside the Lean model: implementation + monitor only
-            Stream(BUNDLE_STREAM, [impl], None, named, timeout=600)]
+            # named bundles (a bundle type = name + field list): named / un-named field-listing patterns, and a REPEATED
+            # whole-time-series variable over bundle types that share their field list
+            Stream(BUNDLE_STREAM, [impl], model_cmd("C19"), named, timeout=900)]
 
 
 # ------------------------------------------------------------------------------------------------
@@ -1477,8 +1755,10 @@ def _cands(s):
 
 
 def _analyse(case, out):
-    """walk one case; returns (violations, feature set, nontrivial?, rank-free specificity violations)"""
+    """walk one case; returns (violations, feature set, nontrivial?, rank-free specificity violations); the
+    [C19-schemavar] notes of the case are left in _analyse.schemavar"""
     bad, feats, spec = [], set(), []
+    _analyse.schemavar = sv = []
     nontrivial = False
     family, order, perms, base = {}, [], [], {}
     for ln, o in zip(case.lines, list(out) + ["<none>"] * len(case.lines)):
@@ -1527,7 +1807,7 @@ def _analyse(case, out):
                 if o == "err:other":
                     bad.append("driver failed on %r" % ln)
                     continue
-                nt = _check_call(ln, args, o, family, order, perms, bad, feats, spec)
+                nt = _check_call(ln, args, o, family, order, perms, bad, feats, spec, sv)
                 nontrivial = nontrivial or nt
         except Bad as e:
             bad.append("unparseable line %r / %r: %s" % (ln, o, e))
@@ -1580,7 +1860,7 @@ def _pat_features(p, feats, depth):
         if depth: feats.add("pattern:nested-collection")
 
 
-def _check_call(ln, args, o, family, order, perms, bad, feats, spec):
+def _check_call(ln, args, o, family, order, perms, bad, feats, spec, sv=None):
     parts = o.split(" ## ")
     head = parts[0].split()
     if not head or head[0] != "solo":
@@ -1604,17 +1884,41 @@ def _check_call(ln, args, o, family, order, perms, bad, feats, spec):
         if k == "sc": feats.add("arg:scalar")
     # (1) who matches: the specification's reading of the patterns vs the implementation's
     spec_b = {}
+    readings_differ = False
     for l in order:
         ok, b = candidate_matches(family[l], args)
         spec_b[l] = b
+        if ok and not candidate_matches(family[l], args, strict=True)[0]:
+            # only a re-used TSB[~S] schema variable over bundles that differ in name alone gets here: the unchanged code
+            # accepts (finding C19-schemavar), the property's strict reading rejects; the monitor takes either answer
+            feats.add("schema-var:readings-differ")
+            readings_differ = True
+            continue
         if ok != (solo[l] is not None):
             bad.append("%s: candidate %s %s the arguments but the implementation %s it"
                        % (ln, l, "matches" if ok else "does not match", "rejects" if ok else "accepts"))
     surv = {l: r for l, r in solo.items() if r is not None}
     feats.add("survivors:%s" % (len(surv) if len(surv) < 3 else "3+"))
+    # a variable REPEATED across positions: how do the types at its positions relate, and is the candidate accepted
+    rep_rel = {}
+    for l in order:
+        for name, sites in var_sites(family[l][0], args).items():
+            if len(sites) < 2:
+                continue
+            kinds = {k for k, _ in sites}
+            kind = "schema-var" if kinds == {"schema"} else "ts-var" if kinds == {"var"} else "ts-and-schema-var"
+            rel = site_relation([t for _, t in sites])
+            rep_rel[l] = rel
+            feats.add("repeated-%s:%s:%s" % (kind, rel, "accepted" if solo[l] is not None else "rejected"))
+            # the property, read on the implementation's answer alone: a whole-time-series variable that occurs at several
+            # positions holds ONE type there (for bundles: same name, same fields), else the candidate must be rejected
+            if kind == "ts-var" and solo[l] is not None and rel not in ("one-type", "one-type:named-bundle"):
+                bad.append("%s: candidate %s (%s) is accepted although its repeated variable ~%s meets DIFFERENT types at its "
+                           "positions (%s): %s" % (ln, l, show_params(family[l][0]), name, rel,
+                                                   " vs ".join(show_ct(t) for _, t in sites)))
     # the documented rank of every matching candidate (None: the documentation does not decide this call)
     doc_iv = None
-    if all(candidate_matches(family[l], args)[0] == (solo[l] is not None) for l in order) \
+    if not readings_differ and all(candidate_matches(family[l], args)[0] == (solo[l] is not None) for l in order) \
             and not any(doc_name_clash(family[l][0]) for l in surv):
         doc_iv = {l: doc_call_rank(family[l], args) for l in surv}
     # (2) what the outcome must be, from the candidates' own reported ranks
@@ -1715,6 +2019,26 @@ def _check_call(ln, args, o, family, order, perms, bad, feats, spec):
         if len(params) != len(args):
             bad.append("%s: winner %s has %d parameters for %d arguments" % (ln, wl, len(params), len(args)))
             continue
+        for name, sites in var_sites(params, args).items():
+            bound = b.get(("ts", name))
+            for kind, t in sites:
+                if bound is None or t == bound:
+                    continue
+                if kind == "var":
+                    bad.append("%s: winner %s binds ~%s to %s but a position of ~%s holds %s (%s): every type variable must be "
+                               "bound to ONE type across all positions"
+                               % (ln, wl, name, show_ct(bound), name, show_ct(t),
+                                  "a different type with the same field list" if sequiv(t, bound) else "different fields"))
+                elif not sequiv(t, bound):
+                    bad.append("%s: winner %s binds the schema variable ~%s to %s but a position holds %s (other fields)"
+                               % (ln, wl, name, show_ct(bound), show_ct(t)))
+                else:
+                    feats.add("schema-var:bound-to-another-type")
+                    msg = ("[C19-schemavar] %s: winner %s (%s) binds the schema variable ~%s to %s although a position of TSB[~%s] "
+                           "holds the different type %s (same field list, compared with time_series_schema_equivalent)"
+                           % (ln, wl, show_params(params), name, show_ct(bound), name, show_ct(t)))
+                    if sv is not None and msg not in sv:
+                        sv.append(msg)
         for i, ((pk, pat), (ak, a)) in enumerate(zip(params, args)):
             need = pvars(pat, set())
             if not need <= set(b):
@@ -1797,6 +2121,8 @@ def monitor(stream, case, out):
     bad, _, _, spec = _analyse(case, out)
     if bad:                      # anything else wrong comes first and alone: it must never be taken for the known finding
         return bad[:3]
+    if stream == BUNDLE_STREAM and _analyse.schemavar and schemavar_listed():
+        return _analyse.schemavar[:3]
     return spec[:3] if stream == SPEC_STREAM else []
 
 
